@@ -3,7 +3,7 @@
    flags, and every sequence of per-candidate outcomes.                       *)
 EXTENDS Naturals, Sequences, FiniteSets, TLC, Json
 
-CONSTANTS DomainLists, NdotsSet, NoSearchSet, ViaFileSet, Names, Apis, Outcomes, MaxOut
+CONSTANTS DomainLists, NdotsSet, NoSearchSet, ViaFileSet, AliasSet, Names, Apis, Outcomes, MaxOut
 VARIABLES cfg, h, nout
 gvars == <<cfg, h, nout>>
 
@@ -21,9 +21,10 @@ OutcomeSteps(api, k) ==
 ApiOf(s) == IF s.op = "gai" THEN (IF s.family = 0 THEN "gai0" ELSE "gai4") ELSE IF s.op = "ghbn" THEN "ghbn4" ELSE s.op
 
 HasRoot(d) == \E i \in 1..Len(d) : d[i] = "."
-GInit == /\ \E d \in DomainLists, nd \in NdotsSet, ns \in NoSearchSet, vf \in ViaFileSet :
+GInit == /\ \E d \in DomainLists, nd \in NdotsSet, ns \in NoSearchSet, vf \in ViaFileSet, al \in AliasSet :
               /\ (vf = 1 => ~HasRoot(d))
-              /\ cfg = [nsrv |-> 1, tries |-> 1, timeout |-> 1000, seed |-> 1, domains |-> d, ndots |-> nd, nosearch |-> ns, viafile |-> vf]
+              /\ cfg = [nsrv |-> 1, tries |-> 1, timeout |-> 1000, seed |-> 1, domains |-> d, ndots |-> nd, nosearch |-> ns, viafile |-> vf,
+                        hostaliases |-> al, noaliases |-> 1 - al]
          /\ \E api \in Apis, name \in Names : h = <<Req(api, name)>>
          /\ nout = 0
 GNext == /\ nout < MaxOut
